@@ -15,7 +15,9 @@ def check(ctx, rep):
         "R19.5 scheduler=, add(), update(), Sequence registration all reach the member-set update with the "
         "flattened list. R19.8 who may write the relation: every construct that can change a `required` set "
         "(mutator call, augmented or plain assignment, del, setattr, through a local alias too) sits in "
-        "requires(), the job constructor, sanitize() or bypass_and_remove(), or in a private helper only they call.")
+        "requires(), the job constructor, sanitize() or bypass_and_remove(), or in a private helper only they call. R19.9 a sequence never drops a requirement: "
+        "on every path of its constructor and of its requires(), what was given is handed to a job's requires() or "
+        "kept in the object, and append() hands what was kept to the first job of a sequence that was empty.")
     rep.trusted = ["T8 set/list semantics"]
     buildrules.construction(ctx, rep, "R19.1", "R19.2", "R19.3", "R19.4", "R19.5")
     from . import common
@@ -26,3 +28,4 @@ def check(ctx, rep):
     common.job_truthiness(ctx, rep, "R19.6", funcs)
     common.no_state_across_calls(ctx, rep, "R19.7", funcs)
     buildrules.relation_writers(ctx, rep, "R19.8")
+    buildrules.sequence_keeps_requirements(ctx, rep, "R19.9")
